@@ -68,13 +68,9 @@ def showMatches (ps : List (List Nat × List Nat)) : String :=
 
 def step (_ : Unit) (t : List String) : Unit × String :=
   match t with
-  | ["split", run, line, col, _pos] =>
-    match text? run, parseHex? line, parseHex? col with
-    | some r, some l, some c => ((), showList ((splitCommentToken r l c).map showTok))
-    | _, _, _ => ((), "bad-op")
-  | ["splitfix", run, line, col, pos] =>
+  | ["split", run, line, col, pos] =>
     match text? run, parseHex? line, parseHex? col, parseHex? pos with
-    | some r, some l, some c, some p => ((), showList ((splitCommentTokenFixed r l c p).map showTok))
+    | some r, some l, some c, some p => ((), showList ((splitCommentToken r l c p).map showTok))
     | _, _, _, _ => ((), "bad-op")
   | ["end", text, line, col] =>
     match text? text, parseHex? line, parseHex? col with
